@@ -35,8 +35,18 @@ def gen_eqn_session(S, idx):
     rng = S['topology%d' % idx]
     kn = S['knobs%d' % idx]
     T = kn.randint(1, 5)
-    block, meta = gen_block(rng, 'contractive', T=T, n=rng.randint(1, 4), rich=True)
+    block, meta = gen_block(rng, 'contractive', T=T, n=rng.randint(1, 4), rich=True,
+                            tol_text=kn.choice([None, '1e-4', '1e-6', '.001']))
     ops = [{'op': 'new', 'reduction': kn.random() < 0.6}]
+    fr = kn.random()
+    if fr < 0.45:
+        # every session may register its own function under the same name f (c <= 1 keeps the contraction)
+        if fr < 0.38:
+            ops.append({'op': 'addfunc', 'name': 'f', 'c': kn.choice([0.25, 0.5, 0.75, 0.9, 1.0])})
+        # (fr >= 0.38: uses f without registering it: the solve must fail with NameError, alone and interleaved)
+        j = rng.randrange(len(block['eqs']))
+        if block['eqs'][j][0] in meta['sim']:
+            block['eqs'][j][1] = 'f(%s)' % block['eqs'][j][1]
     if kn.random() < 0.3:
         ops.append({'op': 'knob', 'name': 'TraceStep', 'value': kn.randint(1, T)})
     if kn.random() < 0.3:
@@ -60,7 +70,8 @@ def gen_eqn_session(S, idx):
             ops.append({'op': 'solve'})
             ops.append({'op': 'observe', 'expect_same_as_previous': True})
     elif r < 0.7:
-        b2, _ = gen_block(rng, 'contractive', T=kn.randint(1, 4), n=rng.randint(1, 3), rich=kn.random() < 0.5)
+        b2, _ = gen_block(rng, 'contractive', T=kn.randint(1, 4), n=rng.randint(1, 3), rich=kn.random() < 0.5,
+                          tol_text=kn.choice([None, '1e-10', '1e-12', '1e-7']))
         # different variable names in the second block, so remnants are visible
         ren = {}
         import re
@@ -253,6 +264,10 @@ def exec_eqn_op(st, op, quiet):
                 return 'ok', None
             if st.solver is None:
                 return 'noop', None
+            if name == 'addfunc':
+                c = op['c']
+                st.solver.AddFunction(op['name'], (lambda x, c=c: c * x))
+                return 'ok', None
             if name == 'knob':
                 if quiet and op['name'] == 'TraceStep':
                     return 'skipped', None
@@ -456,6 +471,24 @@ def execute(case):
                     if not eqn.has_user_t(last_block):
                         want.add('t')
                     if prev_out and prev_out[0][1] == 'ok':
+                        # a fresh solver given only the last block (same solver settings and functions)
+                        pidx = max(i for i in range(oi) if s['ops'][i]['op'] == 'parse')
+                        fresh_ops = [o for o in s['ops'][0:pidx] if o['op'] in ('new', 'knob', 'addfunc')] + \
+                                    [s['ops'][pidx], {'op': 'solve'}, {'op': 'observe'}]
+                        fres, _ff, _ffs = run_sessions({'sessions': [{'kind': 'EQN', 'ops': fresh_ops}],
+                                                        'schedule': [0] * len(fresh_ops), 'faults': []}, quiet=True, only=0)
+                        fobs = fres[0][-1][2]
+                        if fobs is not None and fobs[0] == 'series' and core.canon_json(fobs[1]) != core.canon_json(obs[1]):
+                            det = {}
+                            for kname in sorted(set(obs[1]) | set(fobs[1])):
+                                if core.canon_json(obs[1].get(kname)) != core.canon_json(fobs[1].get(kname)):
+                                    det = {'series': kname, 'reused_solver': (obs[1].get(kname) or [])[0:5],
+                                           'fresh_solver': (fobs[1].get(kname) or [])[0:5]}
+                                    break
+                            viol.append(core.violation(ID, 'remnants-after-reparse', 'remnants-after-reparse:values-differ-from-fresh-solver',
+                                                       session=si, **det))
+                            break
+                        stats['probes']['reparse_compared_with_fresh_solver'] = 1
                         if set(obs[1].keys()) != want:
                             viol.append(core.violation(ID, 'remnants-after-reparse', 'remnants-after-reparse', session=si,
                                                        extra=sorted(set(obs[1]) - want)[0:6], missing=sorted(want - set(obs[1]))[0:6]))
